@@ -20,6 +20,7 @@ def run_automaton(log):
     frames = []           # stack of lists of expected Msg objects
     seen = set()          # id() of processed message objects (objects are kept alive by the log)
     pending_susp = []     # frames waiting for the suspender helper to finish: [frame, stage]
+    first_content = {}    # id(msg) -> content snapshot taken when it was first handed to the engine
     problems = []
     counters = {"messages": 0, "replayed": 0, "resumes_with_nonempty_frame": 0, "suspensions_with_nonempty_frame": 0,
                 "max_depth": 0, "after_clear_checkpoint": 0}
@@ -47,6 +48,15 @@ def run_automaton(log):
                 if m is head:
                     frames[-1].pop(0)
                     counters["replayed"] += 1
+                    # the re-executed message must still say what it said the first time
+                    first = first_content.get(id(m))
+                    now = e[2] if len(e) > 2 else None
+                    if first is not None and now is not None and not post_clear:
+                        if first[0] != now[0] or first[1] is not now[1] or first[2] != now[2] or first[3] != now[3] or first[4] != now[4]:
+                            what = "kwargs" if first[3] != now[3] else ("args" if first[2] != now[2] else "other")
+                            problems.append((f"replayed-message-content-changed:{cmd}:{what}",
+                                             f"log[{i}] {cmd}{_a(m)} first executed with args={first[2]} kwargs={first[3]}, "
+                                             f"replayed with args={now[2]} kwargs={now[3]}"))
                 elif cmd == "_start_suspender" or (pending_susp and pending_susp[-1][1] != "armed"):
                     pass  # a suspension arriving during a replay: its helper messages come first (nested frame below)
                 elif not post_clear:
@@ -58,6 +68,8 @@ def run_automaton(log):
                 if id(m) in seen and cmd not in ("_start_suspender",) and not post_clear:
                     problems.append(("unexpected-replay", f"log[{i}] {cmd}{_a(m)} executed again although nothing was pending"))
             seen.add(id(m))
+            if len(e) > 2:
+                first_content.setdefault(id(m), e[2])
             # ---- effects on the memory -------------------------------------------------------
             if cmd == "clear_checkpoint":
                 cache = None
